@@ -717,6 +717,9 @@ def run(chk, tier, only_rule=None):
     check_bson_size(chk, tier)
     check_cbor_tag_flags(chk, tier)
     check_decimal128_fields(chk, tier)
+    from . import c15
+    for u_ in ('cbor', 'msgpack', 'ubjson', 'bson'):
+        c15.r15_8(chk, F.load([u_], tier), rid='R07.errc', floor=1)
     from . import c10
     c10.r10_7(chk, tier)     # a closer that does not give the depth back makes a flat, valid document hit the nesting limit
     from . import c02
